@@ -275,7 +275,7 @@ TRAJ_FUNCS = [f'{E}.trajectory:get_trajectory_emissions', f'{E}.trajectory:_traj
               'AEIC.performance.types:ThrustModeValues.broadcast']
 
 
-def traj_unit(h, fixed=None):
+def traj_unit(h, fixed=None, whole_kg=False):
     I = h.I
     ec = emis.setup_config(h, fixed)
     S, sp = emis.species_enum(h)
@@ -286,7 +286,12 @@ def traj_unit(h, fixed=None):
     fuel = emis.make_fuel(h)
     lto = emis.make_lto(h)
     traj, fm, nc, nd = emis.make_traj(h, n)
-    fb = SArr.symbolic(h.ctx, 'fuel_burn_per_segment', n, where=lambda v: v >= 0)
+    if whole_kg:
+        # fuel masses recorded in whole kilograms: an integer array (its differences, the segment fuel, are integers too)
+        fb = SArr.symbolic(h.ctx, 'fuel_burn_per_segment_whole_kg', n, sort=z3.IntSort(), where=lambda v: v >= 0)
+        h.ctx.named['fuel_masses_are_integers'] = z3.BoolVal(True)
+    else:
+        fb = SArr.symbolic(h.ctx, 'fuel_burn_per_segment', n, where=lambda v: v >= 0)
     pm = emis.PM(lto=lto, edb='edb-entry', number_of_engines=2)
     try:
         r = h.call(f'{E}.trajectory:get_trajectory_emissions', pm, traj, fb, fuel)
@@ -350,6 +355,10 @@ def window_sum_lemma(h, sums, em, fb, ei, start, stop, n, tag):
 
 
 _variants('get_trajectory_emissions', traj_unit, TRAJ_FUNCS, replay='contracts.C11:replay', max_paths=60000)
+# the element type of the fuel arrays must not matter: whole-kilogram (integer) fuel masses, method options fixed to keep the unit small
+unit('C01', 'get_trajectory_emissions.whole-kilogram-fuel-masses', TRAJ_FUNCS, replay='contracts.C11:replay', max_paths=20000)(
+    lambda h: traj_unit(h, dict(co2_enabled=True, h2o_enabled=True, sox_enabled=True, nox_method='NONE', hc_method='NONE', co_method='NONE',
+                                pmvol_method='NONE', pmnvol_method='NONE'), whole_kg=True))
 
 
 @unit('C01', 'compute_emissions.wiring', [f'{E}.emission:compute_emissions', f'{E}.emission:get_lifecycle_emissions'],
